@@ -161,7 +161,7 @@ func (w *World) BuildGenesis(cdc codec.JSONCodec) app.GenesisState {
 	ab.WithSimpleAccount(w.Addrs[w.Deputy], cs(c("ukava", 1_000_000), c("bnb", 1_000_000_000)))
 	ab.WithSimpleAccount(w.Addrs[w.Member], cs(c("ukava", 1_000_000)))
 	// incentive module needs reward coins; kavadist/community pools
-	ab.WithSimpleModuleAccount(incentivetypes.IncentiveMacc, cs(c("hard", 1_000_000_000_000), c("swp", 1_000_000_000_000), c("ukava", 1_000_000_000_000)))
+	ab.WithSimpleModuleAccount(incentivetypes.IncentiveMacc, cs(c("hard", 1_000_000_000_000), c("swp", 1_000_000_000_000), c("ukava", 1_000_000_000_000)), "minter") // IncentiveMacc is the kavadist module account
 	ab.WithSimpleModuleAccount(communitytypes.ModuleAccountName, cs(c("ukava", 50_000_000_000)))
 	for k, v := range ab.BuildMarshalled(cdc) {
 		gs[k] = v
@@ -364,7 +364,7 @@ func (w *World) Start(tApp app.TestApp) app.TestApp {
 
 // ---------------------------------------------------------------- transactions
 
-func (w *World) sign(tApp app.TestApp, signer int, msgs ...sdk.Msg) []byte {
+func (w *World) Sign(tApp app.TestApp, signer int, msgs ...sdk.Msg) []byte {
 	if w.basicValidOnly {
 		for _, m := range msgs {
 			if m.ValidateBasic() != nil {
@@ -533,7 +533,7 @@ func (w *World) GenTx(r *Rng, tApp app.TestApp, used map[int]bool) ([]byte, stri
 			m := bep3types.NewMsgCreateAtomicSwap(w.Addrs[w.Deputy].String(), A.String(), "0xrecipient", "0xsender", hash, ts, cs(c("bnb", 1001+amt(r, 100_000_000))), span)
 			id := bep3types.CalculateSwapID(hash, w.Addrs[w.Deputy], "0xsender")
 			w.Swaps = append(w.Swaps, bep3Swap{id, secret[:], u})
-			return w.sign(tApp, w.Deputy, &m), "bep3.create.in"
+			return w.Sign(tApp, w.Deputy, &m), "bep3.create.in"
 		}
 	case 17:
 		if len(w.Swaps) == 0 {
@@ -563,7 +563,7 @@ func (w *World) GenTx(r *Rng, tApp app.TestApp, used map[int]bool) ([]byte, stri
 		base := map[string]string{"bnb:usd": w.Cfg.BnbPrice, "xrp:usd": w.Cfg.XrpPrice, "kava:usd": w.Cfg.KavaPrice}[market]
 		p := d(base).Mul(d([]string{"1.0", "0.9", "0.6", "0.35", "1.2", "1.000000000000000001"}[r.Intn(6)]))
 		exp := w.Time.Add(time.Duration(1+r.Intn(48)) * time.Hour)
-		return w.sign(tApp, o, pricefeedtypes.NewMsgPostPrice(w.Addrs[o].String(), market, p, exp)), "pricefeed.post"
+		return w.Sign(tApp, o, pricefeedtypes.NewMsgPostPrice(w.Addrs[o].String(), market, p, exp)), "pricefeed.post"
 	case 19: // auction bid on some open auction
 		auctions := tApp.GetAuctionKeeper().GetAllAuctions(ctx)
 		if len(auctions) == 0 {
@@ -648,9 +648,9 @@ func (w *World) GenTx(r *Rng, tApp app.TestApp, used map[int]bool) ([]byte, stri
 			if err != nil {
 				panic(err)
 			}
-			return w.sign(tApp, signer, m), "committee.submit"
+			return w.Sign(tApp, signer, m), "committee.submit"
 		}
-		return w.sign(tApp, signer, committeetypes.NewMsgVote(w.Addrs[signer], uint64(1+r.Intn(3)), committeetypes.VOTE_TYPE_YES)), "committee.vote"
+		return w.Sign(tApp, signer, committeetypes.NewMsgVote(w.Addrs[signer], uint64(1+r.Intn(3)), committeetypes.VOTE_TYPE_YES)), "committee.vote"
 	default: // issuance by the asset owner (user 1) or an impostor
 		tok := c("busd", amt(r, 1_000_000_000))
 		if r.Chance(1, 2) {
@@ -663,13 +663,13 @@ func (w *World) GenTx(r *Rng, tApp app.TestApp, used map[int]bool) ([]byte, stri
 		delete(used, u)
 		return nil, ""
 	}
-	return w.sign(tApp, u, msg), desc
+	return w.Sign(tApp, u, msg), desc
 }
 
 // InvalidBasicTx returns a properly signed transaction whose message fails ValidateBasic.
 func (w *World) InvalidBasicTx(tApp app.TestApp) []byte {
 	m := swaptypes.NewMsgDeposit(w.Addrs[0].String(), sdk.Coin{Denom: "bnb", Amount: sdkmath.ZeroInt()}, c("usdx", 5), d("0.5"), w.Time.Add(time.Hour).Unix())
-	return w.sign(tApp, 0, m)
+	return w.Sign(tApp, 0, m)
 }
 
 func pickOwner(r *Rng, w *World, self sdk.AccAddress) sdk.AccAddress {
